@@ -15,19 +15,19 @@ open Resolvo Resolvo.MDet
 
 /-- a poll that sees the signal aborts with exactly the provider's value, logging only the poll -/
 theorem poll_fires (s : S) (h : fires s = true) :
-    pollCancel s = (.error (.cancelled (7000 + s.polls)), { s with polls := s.polls + 1, log := s!"P{s.polls}" :: s.log }) := by
+    pollCancel s = (.error (.cancelled (7000 + s.polls)), { s with polls := s.polls + 1, log := s!"P{s.polls}" :: s.log, glog := .poll s.polls true :: s.glog }) := by
   unfold pollCancel; rw [if_pos h]
 
 /-- a poll that does not see the signal has no effect beyond being logged -/
 theorem poll_transparent (s : S) (h : fires s = false) :
-    pollCancel s = (.ok (), { s with polls := s.polls + 1, log := s!"p{s.polls}" :: s.log }) := by
+    pollCancel s = (.ok (), { s with polls := s.polls + 1, log := s!"p{s.polls}" :: s.log, glog := .poll s.polls false :: s.glog }) := by
   unfold pollCancel; rw [if_neg (by simp [h])]
 
 /-- an uncached dependency request whose poll sees the signal is never issued: the solve aborts
     with the provider's value, only the poll is logged, nothing is fetched -/
 theorem no_deps_request_after_signal (U : Universe) (sv : Nat) (s : S) (hun : s.fetchedDeps.contains sv = false)
     (h : fires s = true) :
-    getDeps U sv s = (.error (.cancelled (7000 + s.polls)), { s with polls := s.polls + 1, log := s!"P{s.polls}" :: s.log }) := by
+    getDeps U sv s = (.error (.cancelled (7000 + s.polls)), { s with polls := s.polls + 1, log := s!"P{s.polls}" :: s.log, glog := .poll s.polls true :: s.glog }) := by
   unfold getDeps
   simp only [bind, ExceptT.bind, ExceptT.mk, ExceptT.bindCont, get, getThe, MonadStateOf.get, liftM, monadLift,
     MonadLift.monadLift, ExceptT.lift, StateT.bind, StateT.get, StateT.map, Functor.map, pure, StateT.pure, hun,
@@ -36,7 +36,7 @@ theorem no_deps_request_after_signal (U : Universe) (sv : Nat) (s : S) (hun : s.
 /-- the same for an uncached candidates request -/
 theorem no_cands_request_after_signal (U : Universe) (n : Nat) (s : S) (hun : s.fetchedCands.contains n = false)
     (h : fires s = true) :
-    getCandidates U n s = (.error (.cancelled (7000 + s.polls)), { s with polls := s.polls + 1, log := s!"P{s.polls}" :: s.log }) := by
+    getCandidates U n s = (.error (.cancelled (7000 + s.polls)), { s with polls := s.polls + 1, log := s!"P{s.polls}" :: s.log, glog := .poll s.polls true :: s.glog }) := by
   unfold getCandidates
   simp only [bind, ExceptT.bind, ExceptT.mk, ExceptT.bindCont, get, getThe, MonadStateOf.get, liftM, monadLift,
     MonadLift.monadLift, ExceptT.lift, StateT.bind, StateT.get, StateT.map, Functor.map, pure, StateT.pure, hun,
